@@ -164,3 +164,27 @@ Example C02_rejects_wrong_fence_recipient_target_and_kill_list :
   allowed P0 Actx (OBatch (tail Ab)) = false ∧
   allowed P0 Actx (OBatch [Aq]) = false.
 Proof. exact A_rejects. Qed.
+
+(** Round 4 notes.  (a) [C02_fenced] is about EVERY context, whatever leader flags its view carries: a change is
+    addressed to the NodeHost of a HEALTHY member.  A leader flag left on a failed member whose NodeHost keeps
+    reporting (nobody else claimed leadership since) does not make that NodeHost a recipient. *)
+Definition Lctx : sctx := CTX 100 [mkSD 1 [1;2;3] 7]
+  [SH 1 5 [REP 1 1 11 100 10; REP 1 2 12 40 10; mkReplica 1 3 13 true 10 10]]
+  [HOST 11 1 100 [] [1]; HOST 12 1 100 [] [1]; HOST 13 1 100 [(1,4)] [1]; HOST 15 1 100 [] []] [].
+Example C02_stale_leader_flag_is_no_recipient :
+  bool_decide (ctx_wf Lctx) = true ∧
+  allowed P0 Lctx (OBatch [REQ 2 1 [77] 5 [] [15] 0 13 false false 0]) = false ∧
+  allowed P0 Lctx (OBatch [REQ 2 1 [77] 5 [] [15] 0 11 false false 0]) = true ∧
+  allowed P0 Lctx (OBatch [REQ 2 1 [77] 5 [] [15] 0 12 false false 0]) = true.
+Proof. vm_compute. repeat split; reflexivity. Qed.
+(** (b) [C02_db_hosts_synced] holds whatever a NodeHost's ShardIdList names: NodeHost 3 runs member 12 of shard 1
+    (view) and then reports a list of three shard ids the view does not know, without shard 1 - as long as the
+    number of managed shards and longer: its record still lists shard 1. *)
+Definition Fmem : gmap N N := list_to_map [(10,1);(11,2);(12,3)].
+Definition Frep (a rid : N) (ids : list N) : cmd := CReport (mkReport a [mkSI 1 rid false Fmem 1 false false] ids 0 false [] 0 0).
+Definition Fidle (a : N) (ids : list N) : cmd := CReport (mkReport a [] ids 0 false [] 0 0).
+Definition Ftr : list cmd := [CTick; Frep 1 10 [1]; Frep 2 11 [1]; Frep 3 12 [1]; CTick; Fidle 3 [900; 901; 902]].
+Example C02_foreign_shard_ids_do_not_hide_a_member :
+  ((λ h, bool_decide (1 ∈ h_shards h ∧ 900 ∈ h_shards h ∧ size (h_shards h) = 4%nat)) <$>
+     (match run P0 Ftr with Live d => d_hosts d !! 3 | Dead => None end)) = Some true.
+Proof. vm_compute. reflexivity. Qed.
